@@ -164,6 +164,7 @@ class Actor:
         self.window = [None, None]  # step indices of BEGIN / END markers
         self.window_clock = [None, None]  # global clock at the BEGIN / END markers
         self.begin_tree = None
+        self.end_tree = None
 
 
 class Execution:
@@ -262,6 +263,7 @@ class Execution:
                     a.window[1] = a.steps
                     a.window_clock[1] = self.clock
                     a.in_window = False
+                    a.end_tree = tree_state(self.root)
                 a.sock.sendall(b"G\n")
                 continue
             if line.startswith("Q "):
@@ -481,6 +483,7 @@ def run_with(template, root, body, recorded, decisions, ctx=None):
     finally:
         ex.kill()
     check_prefix(recorded, a.trace, min(first + 1, len(recorded), len(a.trace)), "fault/crash replay")
+    run_with.last_end_tree = a.end_tree
     return a.trace, a.outcome, ex.tree(), a.begin_tree
 
 
